@@ -1,5 +1,5 @@
 """Property -> rules registry.  (rule function, ports) ; ports None = rule handles ports itself."""
-from .rules import sk
+from .rules import sk, wr, conf
 
 BOTH = ('py', 'js')
 PY = ('py',)
@@ -15,6 +15,12 @@ COMMON_ASSUMPTIONS = [
 SK_CORE = [(sk.rule_sk_parse, BOTH), (sk.rule_sk_eof, BOTH), (sk.rule_sk_nr, BOTH), (sk.rule_sk_nf, BOTH), (sk.rule_sk_vars, BOTH), (sk.rule_sk_where, BOTH)]
 
 PROPS = {
+    'C02': {
+        'rules': [(wr.rule_wr_ret, BOTH), (wr.rule_wr_prop, BOTH), (wr.rule_wr_fin, BOTH), (wr.rule_wr_top, BOTH), (wr.rule_wr_uniq, BOTH), (wr.rule_wr_ucnt, BOTH), (wr.rule_wr_sort, BOTH), (wr.rule_wr_aggw, BOTH),
+                  (conf.rule_pa_conf, BOTH), (conf.rule_wr_order, BOTH), (conf.rule_pa_excl, BOTH), (conf.rule_pa_hdrcall, BOTH), (conf.rule_hd_arity, BOTH), (conf.rule_pa_with, BOTH), (conf.rule_rs_proto, BOTH)],
+        'explanation': 'x',
+        'not_decided': 'y',
+    },
     'C01': {
         'rules': SK_CORE + [(sk.rule_sk_emit, BOTH), (sk.rule_sk_unnest, BOTH), (sk.rule_sk_join, BOTH), (sk.rule_sk_stop, BOTH), (sk.rule_sk_copy, BOTH), (sk.rule_sk_upd, BOTH), (sk.rule_sk_nu, BOTH), (sk.rule_sk_err, BOTH), (sk.rule_sk_alias, BOTH), (sk.rule_sk_scope, PY)],
         'explanation': 'x',
